@@ -642,13 +642,15 @@ class _SpinSymMixin(_IndexMixin):
         if self._locked:
             return self._base_cls.diag(self, X)
         self._locked = True
-        XA = X[:, self.alpha_ind]
-        XB = X[:, self.beta_ind]
-        diag = self._base_cls.diag(self, XA)
-        diag += self._base_cls.diag(self, XB)
-        diag += np.diag(self._base_cls.__call__(self, XA, XB))
-        diag += np.diag(self._base_cls.__call__(self, XB, XA))
-        self._locked = False
+        try:
+            XA = X[:, self.alpha_ind]
+            XB = X[:, self.beta_ind]
+            diag = self._base_cls.diag(self, XA)
+            diag += self._base_cls.diag(self, XB)
+            diag += np.diag(self._base_cls.__call__(self, XA, XB))
+            diag += np.diag(self._base_cls.__call__(self, XB, XA))
+        finally:
+            self._locked = False
         return diag
 
     def k_and_deriv(self, X, Y=None):
